@@ -56,7 +56,7 @@ DESTRUCTIVE = [r"File::create\s*\(", r"\.set_len\s*\(", r"remove_file\s*\(", r"\
 def extract(repo):
     facts = {"one_open_options": False, "create_and_append": False, "no_truncate_or_write": False,
              "no_destructive_call_in_impl": False, "path_only_opened_for_read": False,
-             "ripd_names_log_only_for_eventlog_new": False}
+             "ripd_names_log_only_for_eventlog_new": False, "writer_is_bufwriter_or_pure_delegate": False}
     notes = []
     p = os.path.join(repo, "crates", "rip-log", "src", "lib.rs")
     if not os.path.exists(p):
@@ -84,6 +84,45 @@ def extract(repo):
     facts["path_only_opened_for_read"] = len(uses) >= 1 and not other
     if other:
         notes.append("self.path handed to: " + ", ".join(other))
+    # the writer behind `self.writer`: a BufWriter<File> itself, or a wrapper type of this file that only
+    # delegates (its Write impl calls write_all / flush of the inner writer once each, opens no file, has no
+    # destructive call) - otherwise the writer calls read off `append` would not be calls on a BufWriter
+    facts["writer_is_bufwriter_or_pure_delegate"] = False
+    wt = re.search(r"\bwriter\s*:\s*Mutex\s*<\s*([\w<>:\s]+?)\s*>\s*,", src)
+    if wt:
+        ty = re.sub(r"\s+", "", wt.group(1))
+        if ty == "BufWriter<File>":
+            facts["writer_is_bufwriter_or_pure_delegate"] = True
+            notes.append("EventLog.writer: Mutex<BufWriter<File>>")
+        else:
+            blocks = []
+            for mm in re.finditer(r"\b(?:struct\s+" + re.escape(ty) + r"|impl\s+" + re.escape(ty) + r"|impl\s+(?:io::|std::io::)?Write\s+for\s+" + re.escape(ty) + r")\s*\{", src):
+                blocks.append((mm.group(0), brace_body(src, mm.end())))
+            wimpl = [b for h, b in blocks if "Write" in h and "for" in h]
+            strct = [b for h, b in blocks if h.startswith("struct")]
+            ok = len(wimpl) == 1 and len(strct) == 1 and re.search(r"BufWriter\s*<\s*File\s*>", strct[0]) is not None
+            if ok:
+                fns = {}
+                for fm in re.finditer(r"\bfn\s+(\w+)\s*\(", wimpl[0]):
+                    j = wimpl[0].find("{", fm.end())
+                    fns[fm.group(1)] = brace_body(wimpl[0], j + 1)
+                wa, fl = fns.get("write_all", ""), fns.get("flush", "")
+                ok = len(re.findall(r"\.\s*write_all\s*\(", wa)) == 1 and not re.search(r"\.\s*write\s*\(", wa) \
+                    and len(re.findall(r"\.\s*flush\s*\(", fl)) == 1 and not re.search(r"\.\s*write(_all)?\s*\(", fl)
+                every = " ".join(b for _, b in blocks)
+                bad_calls = [pat for pat in DESTRUCTIVE + [r"\bFile::\w+\s*\(", r"OpenOptions", r"\.\s*seek\s*\("] if re.search(pat, every)]
+                ok = ok and not bad_calls
+                # a closure-taking helper (`guarded`) must run the operation exactly once
+                helper = [b for h, b in blocks if h.startswith("impl") and "Write" not in h]
+                for hb in helper:
+                    if re.search(r"\bop\s*:", hb) and len(re.findall(r"\bop\s*\(", hb)) != 1:
+                        ok = False
+                if bad_calls:
+                    notes.append(f"writer type {ty}: calls that open / move / cut files: " + ", ".join(bad_calls))
+            facts["writer_is_bufwriter_or_pure_delegate"] = bool(ok)
+            notes.append(f"EventLog.writer: Mutex<{ty}>, a wrapper that only delegates write_all / flush to its BufWriter<File>: {bool(ok)}")
+    else:
+        notes.append("EventLog: field `writer: Mutex<..>` not found")
     bad = []
     n_ok = 0
     for f in sorted(glob.glob(os.path.join(repo, "crates", "ripd", "src", "**", "*.rs"), recursive=True)):
